@@ -392,11 +392,13 @@ def _machine_drive(shard_id, items, extra):
     events, meta = [], {}
     tid = shard_id * 10_000_000
     try:
-        for script in items:
-            for impl in ("rs", "py"):
+        for si, script in enumerate(items):
+            # every third script also on the Python machine's minimal stepping path (fast_mode: WAIT is simulated by a separate
+            # routine there), every third on one constructed with tracing switched on
+            for impl in ("rs", "py") + (("py+fast",) if si % 3 == 1 else ()) + (("py+trace",) if si % 3 == 2 else ()):
                 tid += 1
-                m = mh.RustMachine(vh) if impl == "rs" else mh.PyMachine()
-                meta[tid] = {"impl": impl, "script": script}
+                m = mh.RustMachine(vh) if impl == "rs" else mh.PyMachine(fast=impl.endswith("+fast"), trace=impl.endswith("+trace"))
+                meta[tid] = {"impl": impl.split("+")[0], "variant": impl, "script": script}
                 events.extend(mh.run_script(m, script, tid))
     finally:
         vh.close()
@@ -437,7 +439,7 @@ def machine_cadence(cr: CheckRun) -> None:
         # live status bit (the C12 finding 'no-return'), which can be the bit of a timer that fired in that very step
         shape = ":reti-without-delivery" if (b["clause"] == "FireSetsStatus" and str(d[1]) == "RETI" and int(dict(d[2]).get("inint", 0)) == 0) else ""
         cr.violation(f"Machine{b['clause']}:{meta['impl']}{shape}", f"{meta['impl']} machine: {b['clause']} ({d[0]}) fails at step {b['line']}: instr={d[1]} pre={dict(d[2])} post={dict(d[3])}",
-                     {"kind": "machine", "impl": meta["impl"], "script": meta["script"], "clause": b["clause"], "line": b["line"]})
+                     {"kind": "machine", "impl": meta["impl"], "variant": meta.get("variant", meta["impl"]), "script": meta["script"], "clause": b["clause"], "line": b["line"]})
     cr.cov["traces_validated_against_impl"] += ntr
     cr.cov["evaluations"] += nev
     cr.cov.setdefault("campaigns", []).append({"name": "machine-cadence", "traces": ntr, "events": nev, "rejected_steps": len(bad)})
@@ -529,6 +531,20 @@ def replay(path: str) -> int:
         for b in hit:
             print(b[:4])
         return 1 if hit else 0
+    if rec.get("kind") == "machine":
+        sys.path.insert(0, str(vlib.VERIF / "harness" / "py"))
+        import machine_harness as mh
+        vh = Vh()
+        try:
+            v = rec.get("variant") or rec["impl"]
+            m = mh.RustMachine(vh) if v == "rs" else mh.PyMachine(fast=v.endswith("+fast"), trace=v.endswith("+trace"))
+            evs = mh.run_script(m, rec["script"], 1)
+        finally:
+            vh.close()
+        bad = vlib.tlc_judge_trace("C13", SD, "TraceMachineTimers", "TraceMachineTimers.cfg", evs, "replay-machine")
+        for b in bad:
+            print("REJECTED", b["clause"], b["line"])
+        return 1 if bad else 0
     beh = rec["behaviour"]
     vh = Vh()
     try:
